@@ -269,7 +269,7 @@ def one_case(chk, spec, n, engine, masks, reuse=False, order=None, mask_with_n=T
         obs = run_engine(engine, _CIRCUITS.get(engine, circuit) if not configure else circuit, m, n, masks, reuse=reuse, order=order,
                          mask_with_n=mask_with_n, configure=configure)
     except Exception as e:
-        sig = f"{engine}-raises-{type(e).__name__}" + ("-reused-instance" if reuse else "")
+        sig = f"{engine}-raises-{type(e).__name__}" + ("-one-mode" if m == 1 else "") + ("-reused-instance" if reuse else "")
         return [("violation", sig, f"{engine} raised {type(e).__name__}: {str(e)[:150]} on a legal circuit/input",
                  {"spec": spec, "n": n, "engine": engine, "masks": masks, "reuse": reuse, "order": order,
                   "mask_with_n": mask_with_n})]
@@ -349,9 +349,13 @@ def real_tensor1(z, d):
             raise ValueError(f"tensor shape {t.shape}")
         return "direct", {(i, j): complex(t[i, j]) for i in range(d) for j in range(d)}
     out = {}
-    b.set_circuit(pcvl.Circuit(1).add(0, pcvl.Unitary(pcvl.Matrix(np.array([[z]], dtype=complex)))))
-    b.set_input_state(pcvl.BasicState([d - 1]))
-    out[(d - 1, d - 1)] = complex(b.prob_amplitude(pcvl.BasicState([d - 1])))
+    if abs(abs(z) - 1) > 1e-12:
+        return "skipped", out
+    # (a one-mode circuit would do, but the phase is placed on the first of two modes so that this route does not
+    # depend on the engine accepting one-mode circuits)
+    b.set_circuit(pcvl.Circuit(2).add(0, pcvl.Unitary(pcvl.Matrix(np.array([[z]], dtype=complex)))))
+    b.set_input_state(pcvl.BasicState([d - 1, 0]))
+    out[(d - 1, d - 1)] = complex(b.prob_amplitude(pcvl.BasicState([d - 1, 0])))
     return "public", out
 
 
@@ -510,7 +514,7 @@ def run(chk: core.Check):
                        "amplitudes and probabilities from prob_amplitude/probability/prob_distribution/all_prob use 1e-9",
                        "native kernels of exqalibur are external: the model for them is the specification itself"]
     chk.required_branches = ["mask", "mask-drops-states", "bunched-input", "reused-instance", "reused-instance-mask-without-n", "reused-instance-mask-other-photon-number", "stepper-perm-not-involution", "engine:Naive", "engine:SLOS",
-                             "engine:SLAP", "engine:MPS", "engine:Stepper", "mps-tensor2", "mps-tensor2-bunched",
+                             "engine:SLAP", "engine:MPS", "engine:Stepper", "one-mode", "mps-tensor2", "mps-tensor2-bunched",
                              "mps-tensor2-nonsymmetric", "mps-tensor1", "stepper-steps", "stepper-steps-perm",
                              "stepper-steps-spectators-both-sides", "stepper-steps-bunched"]
     chk.lean = core.LeanDriver("C02")
@@ -536,6 +540,11 @@ def run(chk: core.Check):
                 chk.branch("stepper-perm-not-involution")
             masks = [] if (engine == "Stepper" or rng.random() < 0.5 or n == 0) else gen_masks(rng, m, n)
             handle(chk, spec, n, engine, masks)
+    # one-mode circuits (m = 1 is inside the quantifier): every engine, bunched inputs only
+    for n in chk.pick((1, 3), (0, 1, 2, 3, 5)):
+        for engine in ENGINES:
+            chk.branch("one-mode")
+            handle(chk, gen_circuit_spec(rng, 1, rng.randint(1, 3), engine == "MPS"), n, engine, [])
     # --- MPS transition tensors against the closed formulas of the model (every cell within the photon number)
     for i in range(chk.pick(9, 30)):
         kind = ("cayley", "leaf", "free")[i % 3]
